@@ -60,12 +60,13 @@ def plan(seed: int, tier: str, n_files: int):
         tags = {t for f in fl for t in f["tags"]} | ({"two_files_interleaved"} if two else set())
         args = {"files": [{"name": f["name"], "text": f["text"]} for f in fl], "order": order, "clock": clock}
         r2 = rng.random()
+        special = bool(tags & {"kMatrix", "FOCUS"})  # files naming pseudo-particles of the special table
         if r2 < 0.25:
             args["wfilter"] = "error"          # the simulated process turns warnings into errors
             tags.add("warnings_as_errors")
-        elif r2 < 0.5:
+        elif r2 < (0.75 if special else 0.4):
             # transient I/O error while the special-particle table loads: half of the time at the very first conversion of the process
-            args["table_fault_before"] = 0 if rng.random() < 0.5 else rng.randrange(0, max(1, len(order) - 2))
+            args["table_fault_before"] = 0 if rng.random() < 0.7 else rng.randrange(0, max(1, len(order) - 2))
             tags.add("table_load_fault")
         jobs.append({"engine": ENGINE, "func": FUNC, "limit_s": 1500, "args": args, "tags": sorted(tags)})
     return jobs
